@@ -215,8 +215,8 @@ def be8 (n : Nat) : Bytes := scalarEightEncode n
 def xorAt (buf : Bytes) (off : Nat) (v : Bytes) : Bytes :=
   buf.take off ++ List.zipWith (· ^^^ ·) ((buf.drop off).take 8) v ++ buf.drop (off + 8)
 
-/-- the library XORs the chunk index into `ivbuf` *in place*: the buffer is not reset to the
-    starting IV between chunks -/
+/-- the nonce buffer of chunk `idx`: the chunk index XORed into the low eight octets of the starting
+    IV (EAX: octets 8–15 of 16, OCB: octets 7–14 of 15).  Every chunk starts from the starting IV. -/
 def nonceStep (aead : Nat) (ivbuf : Bytes) (idx : Nat) : Bytes :=
   match aead with
   | 1 => xorAt ivbuf 8 (be8 idx)
@@ -236,7 +236,7 @@ def encLoop (sealf : Seal) (k : Bytes) (aead is cd : Nat) (hdr : Bytes) :
   | c + 1, idx, ivbuf, rest =>
     let ivbuf1 := nonceStep aead ivbuf idx
     let s := sealf k (ivbuf1.take is) (hdr ++ be8 idx) (rest.take cd)
-    let r := encLoop sealf k aead is cd hdr c (idx + 1) ivbuf1 (rest.drop cd)
+    let r := encLoop sealf k aead is cd hdr c (idx + 1) ivbuf (rest.drop cd)
     (s.1 ++ s.2 ++ r.1, r.2)
 
 /-- chunked AEAD encryption of a non-empty plaintext with a given key and starting IV -/
@@ -249,7 +249,7 @@ def aeadEncryptCore (sealf : Seal) (k : Bytes) (aead cs : Nat) (iv ad input : By
   let (o, idx, ivbuf, rest) := encLoop sealf k aead is cd hdr chunks 0 ivbuf0 input
   let ivbuf1 := nonceStep aead ivbuf idx
   let s := sealf k (ivbuf1.take is) (hdr ++ be8 idx) rest
-  let ivbuf2 := nonceStep aead ivbuf1 (idx + 1)
+  let ivbuf2 := nonceStep aead ivbuf (idx + 1)
   let f := sealf k (ivbuf2.take is) (hdr ++ be8 (idx + 1) ++ be8 (chunks * cd + rest.length)) []
   o ++ s.1 ++ s.2 ++ f.2
 
@@ -310,7 +310,7 @@ def decLoop (open_ : Open) (k : Bytes) (aead is cd : Nat) (hdr : Bytes) :
       match open_ k (ivbuf1.take is) (hdr ++ be8 idx) (rest.take cd) ((rest.drop cd).take 16) with
       | none => (GPG_ERR_CHECKSUM, [], idx, ivbuf1, rest)
       | some p =>
-        let r := decLoop open_ k aead is cd hdr c (idx + 1) ivbuf1 (rest.drop (cd + 16))
+        let r := decLoop open_ k aead is cd hdr c (idx + 1) ivbuf (rest.drop (cd + 16))
         (r.1, p ++ r.2.1, r.2.2)
 
 /-- chunked AEAD decryption with a given key: (error code or 0, plaintext released) -/
@@ -334,7 +334,7 @@ def aeadDecryptCore (open_ : Open) (k : Bytes) (aead cs : Nat) (iv ad input : By
         | none => (GPG_ERR_CHECKSUM, o)
         | some p =>
           let o2 := o ++ p
-          let ivbuf2 := nonceStep aead ivbuf1 (idx + 1)
+          let ivbuf2 := nonceStep aead ivbuf (idx + 1)
           match open_ k (ivbuf2.take is) (hdr ++ be8 (idx + 1) ++ be8 (chunks * cd + len)) []
               ((rest.drop (len + 16)).take 16) with
           | none => (GPG_ERR_CHECKSUM, o2)
@@ -694,10 +694,11 @@ def pkData (pkalgo hashalgo : Nat) (pp : PkParams) (hash : Bytes) : Option (Exce
     else some (.ok (sexpText "(4:data(5:flags5:eddsa)(9:hash-algo6:sha512)(5:value" ++ sexpAtom h ++ sexpText "))"))
   else none
 
-/-- `CheckIntegrity(key, hash)`: the quick check on the left 16 bits, then the public-key operation.
-    (For `hash.length < 2` and a two-octet `left` the library reads outside the vector.) -/
+/-- `CheckIntegrity(key, hash)`: the quick check on the left 16 bits (a digest shorter than two octets —
+    unknown hash algorithm — fails it), then the public-key operation -/
 def checkIntegrity (pkVerify : Bytes → Nat) (s : Sig) (pp : PkParams) (hash : Bytes) : Bool :=
-  if s.left.length = 2 ∧ (s.left.getD 0 0 ≠ hash.getD 0 0 ∨ s.left.getD 1 0 ≠ hash.getD 1 0) then false
+  if s.left.length = 2 ∧
+      (hash.length < 2 ∨ s.left.getD 0 0 ≠ hash.getD 0 0 ∨ s.left.getD 1 0 ≠ hash.getD 1 0) then false
   else
     match pkData s.pkalgo s.hashalgo pp hash with
     | none => false
